@@ -218,3 +218,90 @@ Definition view (st : state) (v : var) : list Z * option (aid * nat * nat) :=
   | Some s => (contents (hp st) (Some s),
                if s_len s =? 0 then None else Some (s_arr s, s_off s, scap (hp st) s))
   end.
+
+(* ================= mapping a list constructor over several lists =================
+   mapcar and (map 'list ...) with two or more lists (pkg/cl/mapcar.go, map.go; the same idiom in mapc, mapcan,
+   maplist, mapl, mapcon, map-into) allocate ONE argument buffer `ca`, refill it for every step and hand it to
+   the function as its args slice.  A function that returns a list must therefore not return (a re-slice of,
+   or an in-place extension of) its args: list (pkg/cl/list.go) and list* (pkg/cl/listx.go) make + copy, cons
+   (pkg/cl/cons.go) builds a new slice.  Arrays here hold objects: the buffer holds list elements, which are
+   integers, nil, or lists (the elements of the last mapped list may be lists: list* and cons splice them). *)
+Inductive obj := ONil | OInt (z : Z) | ORef (s : slice) | OTail (z : Z).     (* OTail: the dotted-tail marker *)
+Definition oheap := list (list obj).
+Definition oarr (h : oheap) (a : aid) : list obj := nth a h [].
+Definition ocontents (h : oheap) (s : slice) : list obj := firstn (s_len s) (skipn (s_off s) (oarr h (s_arr s))).
+Definition owrite (h : oheap) (a : aid) (i : nat) (x : obj) : oheap := set_nth a (set_nth i x (oarr h a)) h.
+Fixpoint owrite_all (h : oheap) (a : aid) (i : nat) (xs : list obj) : oheap :=
+  match xs with [] => h | x :: xs' => owrite_all (owrite h a i x) a (S i) xs' end.
+Inductive mfun := FList | FListStar | FCons.
+
+(* the array a call leaves its result on and the length of the result: None = the call signals an error.
+   list: make(n) + copy.  list* (n >= 2): make(n) + copy, then the last slot is dropped (nil), overwritten by
+   the tail marker (an atom), or the last list is appended behind the first n-1 elements: inside the new
+   array when it has at most one element, else in a larger one.  cons: List{x}, append(List{x}, l...) or
+   List{x, Tail{y}}.  In every case the array is a new one. *)
+Definition row_of (F : mfun) (h : oheap) (xs : list obj) : option (list obj * nat) :=
+  let n := length xs in
+  let front := firstn (n - 1) xs in
+  let splice (last : obj) (room : nat) : option (list obj * nat) :=
+    match last with
+    | ONil => Some (front ++ repeat ONil room, n - 1)
+    | ORef t => let ys := ocontents h t in Some (front ++ ys ++ repeat ONil (room - length ys), n - 1 + length ys)
+    | OInt z => Some (front ++ [OTail z], n)
+    | OTail _ => None
+    end in
+  match F with
+  | FList => Some (xs, n)
+  | FListStar => if n <=? 1 then None else splice (nth (n - 1) xs ONil) 1
+  | FCons => if n =? 2 then splice (nth 1 xs ONil) 0 else None
+  end.
+Definition f_call (F : mfun) (h : oheap) (args : slice) : oheap * obj :=
+  match row_of F h (ocontents h args) with
+  | Some (a, len) => (h ++ [a], ORef {| s_arr := length h; s_off := 0; s_len := len |})
+  | None => (h, ONil)
+  end.
+(* step j .. : refill the buffer with the j-th elements, call *)
+Fixpoint map_steps (F : mfun) (h : oheap) (buf : slice) (cols : list (list obj)) (n j : nat) : oheap * list obj :=
+  match n with
+  | O => (h, [])
+  | S n' =>
+      let h1 := owrite_all h (s_arr buf) 0 (map (fun col => nth j col ONil) cols) in
+      let '(h2, r) := f_call F h1 buf in
+      let '(h3, rs) := map_steps F h2 buf cols n' (S j) in (h3, r :: rs)
+  end.
+Definition min_len (cols : list (list obj)) : nat :=
+  match cols with [] => 0 | c :: cs => fold_left (fun m x => Nat.min m (length x)) cs (length c) end.
+Definition map_run (F : mfun) (h0 : oheap) (cols : list (list obj)) : oheap * slice * list obj :=
+  let k := length cols in
+  let buf := {| s_arr := length h0; s_off := 0; s_len := k |} in
+  let '(h, rs) := map_steps F (h0 ++ [repeat ONil k]) buf cols (min_len cols) 0 in (h, buf, rs).
+(* (setf (car (nth j rows)) v) *)
+Definition row_setcar (h : oheap) (rows : list obj) (j : nat) (v : Z) : oheap :=
+  match nth j rows ONil with
+  | ORef s => if 0 <? s_len s then owrite h (s_arr s) (s_off s) (OInt v) else h
+  | _ => h
+  end.
+(* the inner lists of the last mapped list: one array each (nil for the empty ones) *)
+Fixpoint mk_inner (h : oheap) (ll : list (list Z)) : oheap * list obj :=
+  match ll with
+  | [] => (h, [])
+  | l :: ll' =>
+      match l with
+      | [] => let '(h', os) := mk_inner h ll' in (h', ONil :: os)
+      | _ => let '(h', os) := mk_inner (h ++ [map OInt l]) ll' in
+             (h', ORef {| s_arr := length h; s_off := 0; s_len := length l |} :: os)
+      end
+  end.
+(* what is compared: a row's elements, whether it is dotted, its array and its offset *)
+Fixpoint canon (xs : list obj) : option (list Z * bool) :=
+  match xs with
+  | [] => Some ([], false)
+  | [OTail z] => Some ([z], true)
+  | OInt z :: xs' => match canon xs' with Some (zs, d) => Some (z :: zs, d) | None => None end
+  | _ => None
+  end.
+Definition row_view (h : oheap) (r : obj) : option (list Z * bool * nat * nat) :=
+  match r with
+  | ORef s => match canon (ocontents h s) with Some (zs, d) => Some (zs, d, s_arr s, s_off s) | None => None end
+  | _ => None
+  end.
